@@ -10,6 +10,14 @@ Tie to the source
        overlap chains; sweep lengths / mid-times / number of steps / reported times are compared with the model's exact
        rational time grid.
   (ii) eager oracles on the real results against dense references (scipy.linalg.expm, solve_ivp).
+
+Exploration: generator MPOs carry scalar prefactors (MpsMpoOBC.factor != 1, by multiplication or by canonisation with
+normalize=False); the option combinations method x subtract_E x precompute are dealt from a balanced deck (all 'exact' cases,
+every second 'trace' case inside the regime of the conservation clause) instead of independent coin flips, so that every
+pair of options meets inside every kind of local update on every seed.  A deterministic work guard (WorkGuard) abandons runs
+whose Krylov solver does not finish; such a run is dropped like a timeout, but the solver's preconditions on the local
+generator (linearity, Hermiticity) are examined first and a violated one is reported as a broken contract, which makes
+`search` look for a concrete failing input next to the abandoned one.
 """
 import math
 import time
@@ -725,10 +733,14 @@ def work_abort(ctx, case, e):
                  f"of its generator / {p['iterations']} iterations of the step-size loop (regular: <= 11 / a handful) and the generator "
                  f"handed to expmv is " + "; ".join(bad), case=case)
     else:
+        spin = p["applications"] <= WORK_BOUND
+        known = ("; the loop spins without a further application of the generator: the livelock of the known finding "
+                 "c18:expmv:livelock-ncv-above-ncvmax (initial ncv above the number of stored elements), reached through tdvp_"
+                 if spin and p["ncv"] is not None and p["ncv"] > p["v"].size else "")
         ctx.notes.append(f"case dropped by the work guard: one expmv call (vector of {p['v'].size} stored elements, ncv={p['ncv']}, "
-                         f"t={p['t']!r}) did not finish within {WORK_BOUND} {'applications' if p['applications'] > WORK_BOUND else 'iterations'} "
+                         f"t={p['t']!r}) did not finish within {WORK_BOUND} {'iterations' if spin else 'applications'} "
                          f"({p['applications']} applications of a linear, Hermitian local generator, {p['iterations']} iterations of the "
-                         f"step-size loop): {json.dumps(short)}")
+                         f"step-size loop{known}): {json.dumps(short)}")
 
 
 def run_case(ctx, case):
